@@ -28,6 +28,9 @@ fn spec(cfg: Config, sender: Side, depth: usize, devs: usize) -> SeqSpec {
         let mut a: Vec<(Op, bool)> = vec![];
         if tw.len() < K {
             a.push((Op::TWrite { side: sender, plen: 3 + tw.len(), cap: Cap::Roomy }, false));
+            // refused writes on the sender must not disturb the sending order either
+            a.push((Op::TWrite { side: sender, plen: 65520, cap: Cap::Exact(70000) }, true));
+            a.push((Op::TWrite { side: sender, plen: 9, cap: Cap::NeedPlus(-1) }, true));
         }
         for (j, &w) in tw.iter().enumerate() {
             // in-order delivery is the honest step; everything else (reorder, duplicate) a deviation
